@@ -34,6 +34,8 @@ MIN_EVALS = {"battery.checked": 1500, "helper.post": 20000,
              "inner.post": 500, "set_mode.post": 60}
 SPELLS = ("gregorian", "360day", "360_day", "365day", "365_day", "366day",
           "366_day")
+# Calendar.set_mode also accepts these (it lower-cases the name)
+CASE_SPELLS = ("GREGORIAN", "Gregorian", "360DAY", "365_DAY", "366Day")
 ASSUMPTIONS = ["fresh single-mode tables come from `python -m rtv.battery "
                "--mode M` child processes importing the same working tree"]
 
@@ -222,7 +224,7 @@ def install(ctx, repo, probes):
             if a != b:
                 ctx.target("switch/%s->%s" % (a, b))
     ctx.target("cli/option", "cli/env", "cli/neither", "cli/both",
-               "fresh-year/after-switch")
+               "fresh-year/after-switch", "scratch-calendar")
 
 
 def run_case(ctx, repo, case):
@@ -247,6 +249,19 @@ def run_case(ctx, repo, case):
                     prev = before
                     switched = True
                     ctx.cls("switch/%s->%s" % (before, after))
+                continue
+            if step[0] == "scratch":
+                # a private Calendar object set to some mode: the active
+                # calendar (Calendar.default()) is not concerned
+                ctx.ev("scratch-calendar")
+                ctx.in_oracle += 1      # (not part of the observed history)
+                try:
+                    other = repo.data.Calendar()
+                    if step[1]:
+                        other.set_mode(step[1])
+                finally:
+                    ctx.in_oracle -= 1
+                ctx.cls("scratch-calendar")
                 continue
             if step[0] == "fresh":
                 # a year this process has probably never touched, so
@@ -359,6 +374,7 @@ def workload(ctx, repo):
                 steps += [["fresh", y] for y in fresh]
                 steps += [["item", n] for n in rng.sample(names, 12)]
                 steps += [["set", rng.choice(spell_of[b])]]
+                steps += [["scratch", rng.choice(spell_of[a] + [None])]]
                 steps += [["fresh", y] for y in fresh]
                 order = list(names)
                 rng.shuffle(order)
@@ -378,12 +394,15 @@ def workload(ctx, repo):
         for _ in range(rng.randint(200, 500)):
             v = rng.random()
             if v < 0.25:
-                steps.append(["set", rng.choice(SPELLS + (None, ""))])
+                steps.append(["set", rng.choice(SPELLS + CASE_SPELLS +
+                                                (None, ""))])
+            elif v < 0.28:
+                steps.append(["scratch", rng.choice(SPELLS + (None,))])
             elif v < 0.35:
                 steps.append(["fresh", 4 * rng.randint(-700, 2900)])
                 if rng.random() < 0.5:
                     # the same year again a few steps later
-                    steps.append(["set", rng.choice(SPELLS)])
+                    steps.append(["set", rng.choice(SPELLS + CASE_SPELLS)])
                     steps.append(list(steps[-2]))
             elif v < 0.9:
                 steps.append(["item", rng.choice(names)])
